@@ -236,6 +236,13 @@ def step (d : DS) (line : String) : DS × String :=
     | "truncate" =>
       let (l', ok) := XV.Ledger.truncate d.l (arg 0)
       ({ d with l := l' }, if ok then "ok" else "fail")
+    | "mtruncate" =>
+      -- `Miner.truncateForMiner`: non-pruning walk to the target, then the ledger cut
+      let (s', ok) := walk (walkEnv d (arg 0)) d.s (ledgerH d) (arg 0) false
+      if !ok then ({ d with s := s' }, "fail-walk")
+      else
+        let (l', ok2) := XV.Ledger.truncate d.l (arg 0)
+        ({ d with s := s', l := l' }, if ok2 then "ok" else "fail")
     | "undotodo" =>
       let (u, t) := XV.Ledger.findUndoTodo d.l (arg 0) (arg 1)
       (d, s!"undo={String.intercalate "," (u.map toString)} todo={String.intercalate "," (t.map toString)}")
